@@ -10,6 +10,7 @@ PANIC_CALLS = re.compile(
     r"|core::slice::index::\w+|core::str::slice_error_fail\w*)$")
 INDEX_CALLS = re.compile(r"^(std::ops::Index::index|std::ops::IndexMut::index_mut)$")
 ARITH_PANIC = re.compile(r"^<std::time::(Duration|Instant|SystemTime) as std::ops::(Sub|Add|Mul|Div)(<.*>)?>::(sub|add|mul|div)$|^std::time::Duration::(from_secs_f32|from_secs_f64|new)$")
+SORT_WITH_COMPARATOR = re.compile(r"<impl \[T\]>::(sort_by|sort_unstable_by|sort_by_key|sort_unstable_by_key|sort_by_cached_key|select_nth_unstable_by|binary_search_by)$")
 OTHER_PANICKY = re.compile(r"std::vec::Vec::<T(, A)?>::(remove|insert|swap_remove|split_off|drain|truncate_front)$|std::collections::VecDeque::<T(, A)?>::(remove|insert|swap)$"
                            r"|core::slice::<impl \[T\]>::(split_at|split_at_mut|copy_from_slice|clone_from_slice|swap|chunks|windows)$|core::str::<impl str>::(split_at)$"
                            r"|std::cell::RefCell::<T>::(borrow|borrow_mut)$|std::string::String::(remove|insert|insert_str|truncate|split_off|drain)$")
@@ -129,4 +130,6 @@ def panic_sites(facts, f):
                 out.append((bb, "arith", short(t.get("res_name") or n), t))
             elif OTHER_PANICKY.search(n):
                 out.append((bb, "call:" + short(n), short(n), t))
+            elif SORT_WITH_COMPARATOR.search(n):
+                out.append((bb, "sort-comparator", short(n), t))
     return out
